@@ -243,7 +243,9 @@ static int uv__process_open_stream(uv_stdio_container_t* container,
   if (!(container->flags & UV_CREATE_PIPE) || pipefds[0] < 0)
     return 0;
 
-  err = uv__close(pipefds[1]);
+  /* Not uv__close(): with stdio descriptors closed in the parent the child's
+   * end of the pair can be 0, 1 or 2. */
+  err = uv__close_nocheckstdio(pipefds[1]);
   if (err != 0)
     abort();
 
@@ -950,7 +952,7 @@ static int uv__spawn_and_init_child(
   /* Release lock in parent process */
   uv_rwlock_wrunlock(&loop->cloexec_lock);
 
-  uv__close(signal_pipe[1]);
+  uv__close_nocheckstdio(signal_pipe[1]);  /* may be 0, 1 or 2, like signal_pipe[0] */
 
   if (err == 0) {
     do
